@@ -398,7 +398,17 @@ Inductive op := OpD (b : block) (h : Z) | OpR (h : Z) | OpS (h : Z) | OpG (bps :
   | OpL (n : Z) | OpC (b : block) (h : Z)
   (* shadow restart with ForceResetHeight = rh: hash of the restored status, and whether the
      saved status is still in the DB (1) or was deleted (0) *)
-  | OpF (rh : Z) (h : Z) (kept : Z).
+  | OpF (rh : Z) (h : Z) (kept : Z)
+  (* REAL restart with ForceResetHeight = rh > 0: the chain DB drops the main-chain blocks above rh
+     (the block at rh becomes the best block), then the status boots through restore_reset *)
+  | OpFR (rh : Z) (h : Z).
+
+Definition force_reset_node (nd : node) (rh : Z) : node :=
+  let main' := if (0 <? rh) && (rh <? k_no (st_best (nd_st nd)))
+               then firstn (Z.to_nat rh + 1) (nd_main nd) else nd_main nd in
+  let best' := last main' genesis_block in
+  let '(st', sv') := restore_reset (main_get main') (nd_saved nd) best' (nd_size nd) (nd_self nd) rh in
+  mkNode (nd_size nd) (nd_self nd) st' main' (nd_store nd) sv'.
 
 (** The consensus calls chain.addBlock / chain.reorg make for one delivered block, as implied
     by [deliver], in the order recorded from the real ChainService: 1 no = VerifyTimestamp(block
@@ -452,6 +462,9 @@ Fixpoint scenario_check (nd : node) (ops : list op) (i : nat) : option nat :=
       let nd' := mkNode (nd_size nd) (nd_self nd) st' (nd_main nd) (nd_store nd) sv' in
       if (obs_hash 8 nd' =? h) && ((match sv' with Some _ => 1 | None => 0 end) =? kept)
       then scenario_check nd tl (S i) else Some i
+  | OpFR rh h :: tl =>
+      let nd' := force_reset_node nd rh in
+      if obs_hash 8 nd' =? h then scenario_check nd' tl (S i) else Some i
   | OpL n :: tl => scenario_check (set_node_lib nd n) tl (S i)
   | OpC b h :: tl =>
       let nd' := fst (deliver nd b) in
@@ -472,6 +485,7 @@ Fixpoint scenario_obs_at (nd : node) (ops : list op) (i : nat) : list Z :=
         | OpF rh _ _ =>
             let '(st', sv') := restore_reset (main_get (nd_main nd)) (nd_saved nd) (st_best (nd_st nd)) (nd_size nd) (nd_self nd) rh in
             (mkNode (nd_size nd) (nd_self nd) st' (nd_main nd) (nd_store nd) sv', 8, nd)
+        | OpFR rh _ => (force_reset_node nd rh, 8, force_reset_node nd rh)
         | OpL n => (set_node_lib nd n, 10, set_node_lib nd n)
         | OpC b _ => (fst (deliver nd b), 11, fst (deliver nd b))
         end in
